@@ -553,5 +553,30 @@ func c02(p *core.Program, r *core.Report) {
 			r.Check(s.OK, r5, key, p.Pos(s.Call.Pos()), true, s.Reason, "error of Push is dropped: "+s.Reason)
 		}
 	}
+	lastNonEmptyScanRule(p, r, "previous-non-empty-scan", 1, "")
+
+	// ---- rule 6: Push / SetCoords copy; only Swap and GeometryCollection.Push share storage, by design
+	const r6 = "parts-copied-not-shared"
+	r.Rule(r6, "MODREF capture query: after Push (Polygon, MultiPoint, MultiLineString, MultiPolygon) and SetCoords (all 7 types) no memory reachable from the receiver holds a reference to memory supplied through another argument - the part's coordinates and offsets are copied, so later pushes into or reversals of either geometry cannot show through the other; GeometryCollection.Push, which stores the pushed pointers by design, is the positive control that the query sees captures", 12)
+	m = modref(p, r)
+	for _, e := range []struct{ tn, meth string }{
+		{"Polygon", "Push"}, {"MultiPoint", "Push"}, {"MultiLineString", "Push"}, {"MultiPolygon", "Push"},
+		{"Point", "SetCoords"}, {"LineString", "SetCoords"}, {"LinearRing", "SetCoords"}, {"Polygon", "SetCoords"},
+		{"MultiPoint", "SetCoords"}, {"MultiLineString", "SetCoords"}, {"MultiPolygon", "SetCoords"},
+	} {
+		fn := mustFn(p, r, r6, "", "(*"+e.tn+")."+e.meth)
+		if fn == nil {
+			continue
+		}
+		cs := m.ParamCaptures(fn)
+		why := ""
+		if len(cs) > 0 {
+			why = fmt.Sprintf("%s now holds a reference to %s: the receiver shares storage with its argument, so a later Push/Reverse on one of them rewrites the other's parts", cs[0].Cell, cs[0].Ref)
+		}
+		r.Check(len(cs) == 0, r6, short(fn), p.Pos(fn.Pos()), true, "no cross-argument reference is created", why)
+	}
+	if fn := mustFn(p, r, r6, "", "(*GeometryCollection).Push"); fn != nil {
+		r.Check(len(m.ParamCaptures(fn)) > 0, r6, short(fn)+"/positive-control", p.Pos(fn.Pos()), true, "the capture of the pushed geometry pointers is seen", "the capture query no longer sees GeometryCollection.Push storing its arguments: the query is blind")
+	}
 	r.Assume("that Polygon(i)/LineString(i) rebasing arithmetic returns exactly the i-th pushed part for every history is not decided")
 }
